@@ -29,6 +29,7 @@ def parseAction (s : String) : Option Action :=
     | "select-all" => some .selectAll | "deselect-all" => some .deselectAll | "toggle-all" => some .toggleAll
     | "clear-selection" => some .clearSelection | "toggle-sort" => some .toggleSort
     | "exclude" => some .exclude | "exclude-multi" => some .excludeMulti
+    | "toggle-input" => some .toggleInput | "show-input" => some .showInput | "hide-input" => some .hideInput
     | "accept" => some .accept | "accept-non-empty" => some .acceptNonEmpty | "accept-or-print-query" => some .acceptOrPrintQuery
     | "abort" => some .abort | "print-query" => some .printQuery
     | _ => none
@@ -92,11 +93,12 @@ def setup (ctx : Algo.Ctx) (optS lines steps : String) : Setup :=
     let layout := match o "layout" "default" with | "reverse" => Layout.reverse | "reverse-list" => .reverseList | _ => .default
     let texts := ls.toArray
     let top : Opts := {
-      multi := (o "multi" "0").toNat!, cycle := o "cycle" "0" == "1", layout, track := o "track" "0" == "1", maxItems := rows - (o "fixed" "2").toNat!, total := ls.length,
+      multi := (o "multi" "0").toNat!, cycle := o "cycle" "0" == "1", layout, track := o "track" "0" == "1", maxItems := rows - (o "fixed" "2").toNat!,
+      inputRows := (o "fixed" "2").toNat!, total := ls.length,
       isWord := isWord ctx, resultsOf,
       itemText := fun i => (Fzf.Filter.toChars (texts.getD i [])).1.toList }
     let nosort := o "nosort" "0" == "1"
-    let init : TS := constrain top { results := resultsOf [] (!nosort), sort := !nosort }
+    let init : TS := constrain top { results := resultsOf [] (!nosort), sort := !nosort, inputless := o "noinput" "0" == "1" }
     let stepList := if steps == "_" then [] else steps.splitOn ";"
     -- the bindable names toggle-down / toggle-up are the two actions toggle+down / toggle+up
     let expand (a : String) : List String :=
@@ -158,7 +160,8 @@ def run (ctx : Algo.Ctx) (op : String) (args impl : List String) : Outcome :=
       | _ => specFail "[C14] session crashed or hung"
     { model, spec,
       tags := ["sess", o "layout" "default"] ++ (if top.multi > 0 then ["multi"] else []) ++ (if top.cycle then ["cycle"] else []) ++
-        (if parsed.length ≥ 5 ∧ ls.length ≥ 2 then ["nt"] else []) }
+        (if parsed.length ≥ 5 ∧ ls.length ≥ 2 then ["nt"] else []) ++
+        (if o "noinput" "0" == "1" ∨ parsed.any (·.any fun a => a == some .toggleInput ∨ a == some .hideInput) then ["hidden-input"] else []) }
   | "robust", [_seed, _tier, how] =>
     -- hostile-conditions scenario (lib/procs_robust.py): the expected observation is a clean exit
     let kv := impl.filterMap fun t => match t.splitOn "=" with | [k, v] => some (k, v) | _ => none
